@@ -48,11 +48,16 @@ def _kaisa_case(draw, worlds):
     steps = 0
     prog = []
     ranks_subset = st.lists(st.integers(0, W - 1), unique=True, max_size=W).map(sorted)
+    cast_ok = draw(st.integers(0, 3)) == 0
     for i in range(n):
         kind = draw(st.sampled_from(['train', 'train', 'train', 'eval', 'state_dict', 'memory_usage', 'reset_batch', 'load', 'reload_live']
-                                    + (['sched_step', 'sched_step'] if sched else [])))
+                                    + (['sched_step', 'sched_step'] if sched else [])
+                                    + (['cast'] if cast_ok else [])))
         if kind == 'sched_step':
             prog.append({'op': 'sched_step'})
+        elif kind == 'cast':
+            # the model is cast between two iterations (every rank does it, as a training script would)
+            prog.append({'op': 'cast', 'dtype': draw(st.sampled_from(['float64', 'float32']))})
         elif kind == 'reload_live':
             if steps == 0:
                 continue
@@ -79,6 +84,10 @@ def _kaisa_case(draw, worlds):
         for _ in range(draw(st.integers(1, 3))):
             prog += [{'op': 'train', 'seed': draw(st.integers(0, 999))}, {'op': 'sched_step'},
                      {'op': 'reload_live', 'ranks': draw(ranks_subset)}, {'op': 'train', 'seed': draw(st.integers(0, 999))}]
+    if cast_ok and draw(st.booleans()):
+        # the neighbourhood on purpose: a completed iteration, the cast to the other dtype, another iteration
+        other = 'float32' if case.get('param_dtype', 'float32') == 'float64' else 'float64'
+        prog += [{'op': 'train', 'seed': draw(st.integers(0, 999))}, {'op': 'cast', 'dtype': other}, {'op': 'train', 'seed': draw(st.integers(0, 999))}]
     case['program'] = prog
     case['schedule'] = draw(st.lists(st.integers(0, 63), max_size=250))
     case['flip'] = draw(st.booleans())
@@ -312,7 +321,8 @@ class C03(Prop):
                   'symmetry': case['symmetry'], 'in_hook': case['in_hook'], 'has_load': has_load, 'subset_query': subset,
                   'has_sched': bool(case.get('scheduler')) and 'sched_step' in kinds,
                   'subset_reload': any(o['op'] == 'reload_live' and o.get('ranks') is not None and len(o['ranks']) < W for o in prog),
-                  'eval_between': eval_between, 'non_refresh_step': non_refresh, 'len': len(prog)}
+                  'eval_between': eval_between, 'non_refresh_step': non_refresh, 'len': len(prog),
+                  'cast_mid_run': any(o['op'] == 'cast' and 'train' in kinds[:i] and 'train' in kinds[i + 1:] for i, o in enumerate(prog))}
         res = kaisa.run_sim(case, prog, case['schedule'], case['flip'])
         if res.timed_out:
             raise RuntimeError('simulation timed out (harness)')
